@@ -15,12 +15,12 @@ TECHNIQUE = ('exhaustive enumeration of all angle histories up to depth 3/4 over
 RULE = ('boundary sets {[0,180,360],[0,160,360],[0,120,240,360]} x buffers {0,1,15,45,59.5,60,75,85,89,90,95,100,110,119,120,150,179} '
         'within range x all angle sequences of length 1..3 (T: ..4) over the region alphabet (2 representatives of every open '
         'interval between consecutive critical values 0,B_i,B_i+-b,b,360-b,360, plus the hard boundaries themselves when they are not gates); transitions(): all 1-D sequences len<=5 over 3 '
-        'states, all matrices up to 3x3 and 2x4 (T: 3x4) over {0,1,2}; state=(boundaries,buffer,angle sequence); non-trivial = '
+        'states, all matrices up to 3x3 and 2x4 (T: 3x4) over {0,1,2}, long sequences in int8/uint8/int16 with transitions beyond the range of the dtype; state=(boundaries,buffer,angle sequence); non-trivial = '
         'sequence on which the hysteresis answer differs from plain binning')
 ASSUMPTIONS = ['angles equal to a gate value (B_i +- buffer mod 360) are excluded, as the property allows; hard boundaries are included when buffer > 0',
                'the region alphabet is exact: all comparisons in the code are against the listed critical values, so two angles '
                'in the same open interval are indistinguishable to the implementation']
-GUARDS = {'hysteresis_differs_from_binning': 1000, 'wide_buffer_wraps': 1000, 'wraparound_stay': 1000,
+GUARDS = {'long_narrow': 5, 'hysteresis_differs_from_binning': 1000, 'wide_buffer_wraps': 1000, 'wraparound_stay': 1000,
           'quiet_trailing_row': 100, 'all_quiet': 10}
 BSETS = ([0, 180, 360], [0, 160, 360], [0, 120, 240, 360])
 BUFFERS = (0, 1, 15, 45, 59.5, 60, 75, 85, 89, 90, 95, 100, 110, 119, 120, 150, 179)
@@ -188,6 +188,16 @@ def run_shard(sh, ctx):
                     check_trans(case, ctx)
                     if k % 64 == i:
                         check_trans(dict(case, dtype='int16'), ctx)
+        # narrow state dtypes with transitions at frame numbers beyond the dtype's range
+        if i == 0:
+            for dt, L in (('int8', 130), ('int8', 300), ('uint8', 260), ('int16', 40000), ('int64', 300)):
+                for shape2d in (False, True):
+                    a = np.zeros(L, dtype=dt)
+                    a[L - 3:] = 1
+                    a[L // 2] = 2
+                    arr = np.stack([a, a[::-1].copy()]) if shape2d else a
+                    ctx.guard('long_narrow')
+                    check_trans({'kind': 'trans', 'a': arr.tolist(), 'dtype': dt}, ctx)
         ctx.sample(case)
 
 
